@@ -8,7 +8,7 @@
    Statements only; proofs in Proofs/FancyLossy.v and Proofs/FancyFrame.v. *)
 From Coq Require Import String.
 From N2 Require Import Model.All Model.Fancy.
-From N2 Require Import Proofs.SchedSpec Proofs.FancyLossy Proofs.FancyFrame Proofs.FancySched.
+From N2 Require Import Proofs.SchedSpec Proofs.FancyLossy Proofs.FancyFrame Proofs.FancySched Proofs.FancyLines.
 
 (* raw bytes: whatever a command printed, the line kept for display is well-formed UTF-8 ... *)
 Theorem C20_lossy_valid : forall s, utf8_strict (lossy s) = true.
@@ -80,3 +80,16 @@ Print Assumptions C20_display_never_panics_during_a_build.
 Theorem C20_fresh_work_is_quiet : forall cf decls s fl, graph_wf (cf_graph cf) -> wanted (cf_graph cf) (bs_new (length (g_builds (cf_graph cf))) decls) s -> quiet (run_init s fl).
 Proof. exact fresh_work_quiet. Qed.
 Print Assumptions C20_fresh_work_is_quiet.
+
+(* ---- overprinting stays aligned ----
+   when no message contains a line break (descriptions and command lines come from manifest text,
+   where none can be written; last-output lines come from find_last_line, C20_last_line_has_no_line_break,
+   and lossy decoding introduces none) the frame minus the pending text contains exactly as many line
+   breaks as its final cursor-up says: the next frame starts on this frame's status line *)
+Theorem C20_frame_line_count : forall st now cols, (2 <= cols)%nat -> Forall task_nonl (fs_tasks st) -> exists lines st', f_print st now cols = Ok (fs_pending st ++ status_line (fs_counts st) (length (fs_tasks st)) ++ concat (map with_nl lines) ++ cursor_up (1 + length lines), st') /\ nl_count (status_line (fs_counts st) (length (fs_tasks st)) ++ concat (map with_nl lines) ++ cursor_up (1 + length lines)) = (1 + length lines)%nat.
+Proof. exact frame_line_count. Qed.
+Print Assumptions C20_frame_line_count.
+
+Theorem C20_lossy_introduces_no_line_break : forall s, nonl s -> nonl (lossy s).
+Proof. exact lossy_keeps_nonl. Qed.
+Print Assumptions C20_lossy_introduces_no_line_break.
